@@ -313,10 +313,16 @@ void SocketTlsImpl::DriverPending()
     lastError = SSL_ERROR_NONE;
   }
 
-  char buf[64];
-  auto received = Read(buf, sizeof(buf));
-  if(received) {
-    throw std::logic_error("unexpected recceive");
+  // advance the handshake only: user data that arrives right behind the
+  // peer's last handshake flight must stay queued for the next Receive
+  if(HandleLastError()) {
+    for(int i = 1; i <= handshakeStepsMax; ++i) {
+      auto res = SSL_do_handshake(ssl.get());
+      if((res > 0) || !HandleResult(res)) {
+        break;
+      }
+      assert(i < handshakeStepsMax);
+    }
   }
 }
 
